@@ -244,7 +244,9 @@ func (r Relation) Join(r2 Relation, keys, leftOutput, rightOutput NamesSlice) Se
 	if rows.IsLiteralTrue() {
 		return True
 	}
-	attrs := append(leftOutput, rightOutput...)
+	// Build the heading in a fresh slice: leftOutput may be the left operand's own attrs.
+	attrs := make(NamesSlice, 0, len(leftOutput)+len(rightOutput))
+	attrs = append(append(attrs, leftOutput...), rightOutput...)
 	if len(attrs) == 2 {
 		at, val := 0, 1
 		if attrs[val] == "@" {
